@@ -27,14 +27,15 @@ def run_scenario(job):
     import cpppo.history.files as hf
     import cpppo.history.times as ht
     from cpppo.history import timestamp
-    j, limit, variant = job
+    j, limit, variant = job[:3]
+    per_tick = job[3] if len(job) > 3 else 12          # load() calls per tick: until it returns nothing (<= 12), or exactly this many
     sc = j["sc"]
     clock = Clock()
     saved = (hf.timer, ht.timer)
     hf.timer = clock
     ht.timer = clock
     d = tempfile.mkdtemp(prefix="c18_")
-    out = {"sc": sc, "ev": [], "values": [], "limit": limit, "variant": variant}
+    out = {"sc": sc, "ev": [], "values": [], "limit": limit, "variant": variant, "per_tick": per_tick}
     try:
         path = os.path.join(d, "hist")
         nfiles = len(sc["files"])
@@ -65,10 +66,11 @@ def run_scenario(job):
         last = max(r["ts"] for f in sc["files"] for r in f)
         ld = hf.loader(path, historical=BASE + sc["start"], basis=BASE, factor=float(sc["factor"]),
                        lookahead=float(sc["lookahead"]) if sc["lookahead"] else None)
-        horizon = max(0, last - sc["start"]) + 3
+        nrec = sum(len(f) for f in sc["files"])
+        horizon = max(0, last - sc["start"]) + 3 + (2 * nrec + 4 if per_tick < 12 else 0)     # (one limited load per tick needs more ticks)
         for now in range(0, horizon + 1):
             clock.t = BASE + now
-            for _ in range(12):
+            for _ in range(per_tick):
                 cur, events = ld.load(limit=limit or None)
                 evs = []
                 for e in events:
